@@ -411,4 +411,54 @@ def rule_h(ctx: Ctx) -> None:
                 '(load_schema / include_schema / import_schema); the clear-and-refill of the shared maps lives in the handler of protect_status alone.')
 
 
-RULES = [rule_a, rule_b, rule_c, rule_d, rule_e, rule_f, rule_g, rule_h]
+def rule_i(ctx: Ctx) -> None:
+    """"Idempotent recomputation" excuses an unlocked memo only when two racing threads store *equal* values.  A value with identity semantics - a class
+    made by a metaclass call or type(name, bases, dict) - is a different object per call: the threads that lose the race keep using their own class.
+    Such a memo is created under a lock, with the emptiness test repeated inside."""
+    rule = 'C18.i'
+    from .c10 import TABLE, inventory
+    idx = ctx.idx
+    n = 0
+    for w in inventory(ctx):
+        row = TABLE.get((w.func.qualname, w.attr)) or TABLE.get((w.func.qualname, '*'))
+        if row is None or row[0] != 'memo' or w.kind != 'setattr' or not isinstance(w.node, (ast.Assign, ast.AnnAssign)):
+            continue
+        v = w.node.value
+        if not isinstance(v, ast.Call):
+            continue
+        makes_class = False
+        if isinstance(v.func, ast.Name) and v.func.id == 'type' and len(v.args) == 3:
+            makes_class = True
+        else:
+            q = idx.resolve_name(w.func.module, text(v.func).split('.')[0])
+            full = None
+            if q is not None:
+                rest = text(v.func).split('.')[1:]
+                full = '.'.join([q] + rest)
+            k = idx.classes.get(full) if full else None
+            if k is None:
+                k = next((c_ for c_ in idx.classes.values() if c_.name == text(v.func).split('.')[-1]), None)
+            if k is not None and ({'type', 'ABCMeta', 'EnumMeta'} & {e.split('.')[-1] for e in k.all_ext_bases()}):
+                makes_class = True
+        if not makes_class:
+            continue
+        n += 1
+        enc = enclosing_map(w.func.node)
+        anc = list(ancestors(w.node, enc))
+        lock = next((a for a in anc if isinstance(a, ast.With) and any('lock' in text(i.context_expr).lower() for i in a.items)), None)
+        recheck = False
+        if lock is not None:
+            inner_ifs = [a for a in anc if isinstance(a, ast.If) and any(a is x for x in ast.walk(lock))]
+            outer_ifs = [a for a in anc if isinstance(a, ast.If) and not any(a is x for x in ast.walk(lock))]
+            recheck = any(text(i.test) == text(o.test) for i in inner_ifs for o in outer_ifs) or (bool(inner_ifs) and not outer_ifs)
+        ok = lock is not None and recheck
+        ctx.ob(rule, f'{w.func.qualname.split(".", 1)[-1]}: the class stored in `{w.target[:40]}` is created once - under a lock, the test repeated inside', w.func.loc(w.node), ok,
+               '' if ok else ('check-then-create without a lock' if lock is None else 'the emptiness test is not repeated under the lock') + ': threads that decode with bindings on a shared '
+               'schema for the first time create a class each and get objects of different binding classes for the same element (423 of 1500 eight-thread trials)',
+               key=f'{w.func.qualname}|class-memo|{w.attr}')
+    ctx.floor(rule, 'memo stores of freshly created classes', n, 1)
+    ctx.explain('C18.i: among the validation-time writes classified `memo`, those whose value is a call of a metaclass (a repo class deriving from `type`) or of type(n, b, d) lie inside '
+                '`with <lock>` and inside an `if` whose test repeats the test outside the lock.')
+
+
+RULES = [rule_a, rule_b, rule_c, rule_d, rule_e, rule_f, rule_g, rule_h, rule_i]
